@@ -7,7 +7,7 @@
    (b) C09: runs from states that differ only outside a closed set of cells
        containing the roots (i.e. in garbage) give the same observables. *)
 From Coq Require Import ZArith NArith PArith List String Bool Floats FMapPositive Lia.
-From EvyV Require Import Base Num Ast Omap Sem SemStoreBase SemIsoBase SemIsoLib SemIso SemEvents.
+From EvyV Require Import Base Num Ast Omap Sem SemOrder SemStoreBase SemIsoBase SemIsoLib SemIso SemEvents.
 Import ListNotations.
 Local Open Scope positive_scope.
 
@@ -75,7 +75,7 @@ Definition holds_in (s : state) (v : loc) (a : payload) : Prop :=
 
 Lemma payload_vs_params ps : forall args vals fr1 fr2 f s1 s2 fr1' s1',
   iso f s1 s2 -> framerel f fr1 fr2 ->
-  Forall2 (holds_in s2) vals args ->
+  Forall2 (holds_in s2) vals (firstn (List.length ps) args) ->
   NoDup vals -> (forall v a, In v vals -> f a <> Some v) ->
   bind_payload ps args fr1 s1 = (Ok fr1', s1') ->
   exists fr2' rest f',
@@ -84,7 +84,7 @@ Lemma payload_vs_params ps : forall args vals fr1 fr2 f s1 s2 fr1' s1',
 Proof.
   induction ps as [|[n t] ps IH]; intros args vals fr1 fr2 f s1 s2 fr1' s1' I F H ND NR B; simpl in B |- *.
   - inversion B; subst. exists fr2, vals, f. split; [reflexivity|]. split; [apply ext_refl|]. split; auto.
-  - destruct args as [|a more]; [inversion B|].
+  - destruct args as [|a more]; [inversion B|]. cbn [List.length firstn] in H.
     inversion H as [|v a' vals' more' Hv H']; subst.
     assert (Hex : exists hv : hval, (match t, a with
                        | TNum, PvNum x => alloc (HNum x)
@@ -118,7 +118,8 @@ Theorem event_as_call fuel P name args h fd vals f sE sC :
   find_handler name (p_handlers P) = Some h ->
   fn_params fd = h_params h -> fn_variadic fd = None -> fn_body fd = h_body h ->
   iso f sE sC ->
-  Forall2 (holds_in sC) vals args -> NoDup vals -> (forall v a, In v vals -> f a <> Some v) ->
+  Forall2 (holds_in sC) vals (firstn (List.length (h_params h)) args) ->
+  NoDup vals -> (forall v a, In v vals -> f a <> Some v) ->
   (forall e s', bind_payload (h_params h) args [] sE <> (Er e, s')) ->
   fst (handle_event fuel P name args sE) = outcome_of_call (fst (call_user fuel P fd vals sC)) /\
   exists f', ext f f' /\ iso f' (snd (handle_event fuel P name args sE)) (snd (call_user fuel P fd vals sC)).
